@@ -213,6 +213,16 @@ TABLE["C09"][2].extend([
    ("differentiate_output_scopes", "C09_differentiate_output_blocks", "the outputs split into one block per output o of the operand, of length |scope(o)|+1, every element having the scope of o"),
 ])
 TABLE["C09"] = (TABLE["C09"][0], TABLE["C09"][1] + ["DiffStruct"], TABLE["C09"][2])
+TABLE["C09"][2].extend([
+   ("multiply_structure", "C09_multiply_result", "whenever multiply_m returns (operands well-formed), the product is smooth and decomposable, has the operands' scope, one output per pair of outputs (all valid nodes), and output (o1,o2) has scope scope(o1) U scope(o2)"),
+   ("multiply_table_scopes", "C09_multiply_pair_scopes", "every multiplied pair of layers has disjoint or equal scopes and its product node has the union as scope"),
+])
+TABLE["C09"] = (TABLE["C09"][0], TABLE["C09"][1] + ["MulStruct"], TABLE["C09"][2])
+TABLE["C04"][2].extend([
+   ("multiply_exec_den", "C04_multiply_executable", "EXECUTABLE level: for well-formed operands in the fragment (Embedding, Polynomial, constant inputs, sums, Hadamard and Kronecker products, weights ANY parameter expression evaluating to a matrix of the right shape), every product node (i,j) of the circuit returned by multiply_m (model of cirkit.symbolic.functional.multiply with its per-layer rules: outer-product embeddings, coefficient convolution, Kronecker weight with the column permutation sumsum_perm, sorted Hadamard pairing, Kronecker x Kronecker with the permutation layer kron_perm, disjoint-scope Kronecker joins) evaluates to the Kronecker product of the values of node i of a and node j of b, and the operand copies keep their values"),
+   ("multiply_exec_den_outputs", "C04_multiply_executable_outputs", "... hence the outputs of the product are the Kronecker products of the operands' outputs, output (o1,o2) at o1-major position"),
+])
+TABLE["C04"] = (TABLE["C04"][0], ["Base", "Circ", "Multiply", "Scalar", "Tensor", "Pexpr", "Exec", "Ops", "Struct", "OpsProps", "Link", "LinkMul"], TABLE["C04"][2])
 
 if __name__ == "__main__":
     for pid in (sys.argv[1:] or TABLE):
